@@ -36,7 +36,7 @@ Section Early.
 Lemma c20_oracle_sound_with gn t c :
   c20_valid gn t c -> c20_check t c = true -> c20_oracle gn t c = None.
 Proof.
-  destruct c as [reg0 g es obs|g sites es obs|site e obs|r o alloc h p lst ems|cc n|idn]; simpl.
+  destruct c as [reg0 g es obs|g sites es obs|site e obs|r o alloc h p lst ems|cc n|un uu|idn]; simpl.
   - reflexivity.
   - intros (gn' & -> & Hg & Hv & Hc). rewrite andb_true_iff. intros [Hi Ho].
     apply outcomes_eqb_eq in Ho. subst obs. subst gn'.
@@ -51,7 +51,8 @@ Proof.
     intros _. rewrite !andb_true_iff. intros [[[[_ Hm] _] Hh] Hp]. subst h p.
     pose proof (handle_p_no_panic_early r) as Hnp.
     destruct (handle_p r); [| |contradiction]; destruct o; try discriminate; reflexivity.
-  - intros -> H. apply N.eqb_eq in H. subst n. reflexivity.
+  - intros _ H. apply N.eqb_eq in H. subst n. destruct cc; reflexivity.
+  - intros _ H. apply andb_true_iff in H as [H1 ->]. apply N.eqb_eq in H1. subst un. reflexivity.
   - intros _ ->. reflexivity.
 Qed.
 End Early.
@@ -64,13 +65,12 @@ Qed.
 
 Lemma c20_validb_sound gn t c : c20_validb gn t c = true -> c20_valid gn t c.
 Proof.
-  destruct c as [reg0 g es obs|g sites es obs|site e obs|r o alloc h p lst ems|cc n|idn]; simpl; try (intros; exact I).
+  destruct c as [reg0 g es obs|g sites es obs|site e obs|r o alloc h p lst ems|cc n|un uu|idn]; simpl; try (intros; exact I).
   - destruct gn as [gn'|]; [|discriminate]. rewrite !andb_true_iff. intros [[H1 H2] H3].
     exists gn'. repeat split; try assumption.
     + apply list_eqb_seqb_eq; exact H1.
     + apply Forall_forall. intros v Hv. rewrite forallb_forall in H2. apply H2; exact Hv.
   - intros H; exact H.
-  - destruct cc; [discriminate|reflexivity].
 Qed.
 
 (* every case a shard accepts (c20_check_covered) is within the scope of the soundness theorem, or the
@@ -89,23 +89,9 @@ Proof.
   destruct c; try reflexivity. simpl. destruct gn; reflexivity.
 Qed.
 
-(* what the watch server does on a client cancel, as transcribed: two Canceled responses for one watch
-   (one from the stream loop, one when the watch goroutine ends); one when the stream just ends *)
-Lemma watch_cancel_responses_client_cancel : watch_cancel_responses true true = 2.
-Proof. reflexivity. Qed.
-Lemma watch_cancel_responses_stream_end : watch_cancel_responses true false = 1.
-Proof. reflexivity. Qed.
-
-(* finding C20-F1: the faithful model violates "one Canceled response per watch" ... *)
-Lemma watch_cancel_once_refuted : exists cc, 1 < watch_cancel_responses true cc.
-Proof. exists true. vm_compute. reflexivity. Qed.
-(* ... exactly when the client cancels *)
-Lemma watch_cancel_once_except_client_cancel : forall cc, cc = false -> watch_cancel_responses true cc = 1.
-Proof. intros cc ->. reflexivity. Qed.
-(* and the oracle reports exactly that signature on what the model produces *)
-Lemma c20_cancel_oracle_signature gn t cc n :
-  c20_check t (KCancel cc n) = true -> c20_oracle gn t (KCancel cc n) = if cc then Some 1 else None.
-Proof. simpl. intros H. apply N.eqb_eq in H. subst n. destruct cc; reflexivity. Qed.
+(* exactly one Canceled response per watch, however it ends (C20-F1, fixed) *)
+Lemma watch_cancel_once cc : watch_cancel_responses true cc = 1.
+Proof. destruct cc; reflexivity. Qed.
 
 (* ---------- limits ---------- *)
 
